@@ -121,6 +121,8 @@ CONTENTS = [
     [("span", {"tts:fontStyle": "italic", "region": "low"}, ["low"]), ("br",), "rest"],
     ["x", ("span", {"tts:fontStyle": "normal"}, ["y"]), "z"],
     [("span", {"tts:fontStyle": "italic"}, ["Hello"]), " ", ("span", {"tts:fontWeight": "bold"}, ["world"])],
+    # captions without a letter or digit (hesitation, music, a lone dash): displayed like any other
+    ["..."], ["?!"], ["\u266a \u266a"], ["-", ("br",), "\u2014"],
 ]
 
 
@@ -142,8 +144,11 @@ def documents(thorough):
         {"begin": "1s", "end": "2s", "content": ["from the div"]},
         {"begin": "3s", "end": "4s", "region": "low", "content": ["from the p"]},
         {"begin": "5s", "end": "6s", "region": "pad", "content": ["p ", ("span", {"tts:fontStyle": "italic", "region": "low"}, ["span"])]},
+        # a span WITHOUT a region inside a p with one, inside a div with another: the nearest ancestor (the p) decides
+        {"begin": "7s", "end": "8s", "region": "pad", "content": ["p ", ("span", {"tts:fontStyle": "italic"}, ["unplaced span"]), " end"]},
     ]}]}, False, {"en-US": [(S, 2 * S, ["from the div"], "top", None, "top"), (3 * S, 4 * S, ["from the p"], "low", None, "top"),
-                            (5 * S, 6 * S, ["p ", ("span", {"tts:fontStyle": "italic", "region": "low"}, ["span"])], "pad", None, "top")]}
+                            (5 * S, 6 * S, ["p ", ("span", {"tts:fontStyle": "italic", "region": "low"}, ["span"])], "pad", None, "top"),
+                            (7 * S, 8 * S, ["p ", ("span", {"tts:fontStyle": "italic"}, ["unplaced span"]), " end"], "pad", None, "top")]}
     yield "two languages, one without xml:lang", {"tt_lang": "de", "divs": [
         {"lang": "fr", "ps": [{"begin": "1s", "end": "2s", "content": ["bonjour"]}]},
         {"ps": [{"begin": "1s", "end": "2s", "content": ["hallo"]}, {"begin": "3s", "end": "4s", "content": ["welt"]}]}]}, True, \
